@@ -161,7 +161,7 @@ func varyingSuite() hlib.Suite {
 	return hlib.Suite{Name: "regular+random/time-varying-rate-sequences", Run: func(r *hlib.Rec) {
 		alpha := []int{0, 1, 3, 7, 10}
 		for _, kind := range []api.DistributionType{api.RegularDistribution, api.RandomDistribution} {
-			for _, n := range []int{2, 3, 5, 10} {
+			for _, n := range []int{1, 2, 3, 5, 10} { // N=1: an interval between 100 and 200 ms (a cycle is one sub-tick)
 				for a := range alpha {
 					for b := range alpha {
 						for c := range alpha {
@@ -404,7 +404,7 @@ func triggerSuite() hlib.Suite {
 func passSuite() hlib.Suite {
 	return hlib.Suite{Name: "pass-through-and-unknown-kind", Run: func(r *hlib.Rec) {
 		for _, kind := range []api.DistributionType{api.NoneDistribution, api.RegularDistribution, api.RandomDistribution} {
-			for _, iv := range []time.Duration{time.Millisecond, 50 * time.Millisecond, 100 * time.Millisecond, time.Second, time.Minute} {
+			for _, iv := range []time.Duration{time.Millisecond, 50 * time.Millisecond, 100 * time.Millisecond, 150 * time.Millisecond, 250 * time.Millisecond, 1050 * time.Millisecond, time.Second, time.Minute} {
 				if kind != api.NoneDistribution && iv > 100*time.Millisecond {
 					continue
 				}
